@@ -197,6 +197,9 @@ def hostile_bytes(item, ser, rng, seq, base="invoke"):
     return data, close
 
 
+SPIN_ENOUGH = 3
+
+
 class Attacker:
     def __init__(self):
         self.rc = None
@@ -222,6 +225,10 @@ def run_scripts(scripts, servertype, timeout, seed, full=False):
         lab = fresh_lab()
         P = lab.P
         for script, ser in scripts:
+            if getattr(sc, "spins", 0) >= SPIN_ENOUGH:
+                # serving threads that never come back have been seen (and reported) several times in this session; every further
+                # one costs the watchdog's full waiting time, and nothing new would be learnt
+                break
             lab.base = len(lab.net.socks)
             lab.log = []
             sc.set_budget(6000)
@@ -415,7 +422,7 @@ def run_scripts(scripts, servertype, timeout, seed, full=False):
                 lab = fresh_lab()
         lab.close()
     res, sc = memnet.run(main, max_steps=20000000)
-    if len(traces) < len(scripts):
+    if len(traces) < len(scripts) and getattr(sc, "spins", 0) < SPIN_ENOUGH:
         raise util.MachineryError("scheduler session ended early (%d of %d scripts)" % (len(traces), len(scripts)))
     return traces
 
@@ -450,16 +457,18 @@ def run(ctx):
                   if not ctx.quick or (i + (st == "thread") * 2 + (tmo > 0)) % 4 in (0, 1) or i < 132]
             if ctx.quick and tmo:
                 js = js[:len(s1)] + js[len(s1)::3]      # every single-item script in every configuration
-            traces += run_scripts(js, st, tmo, ctx.seed)
-            metas += [{"script": s, "ser": ser, "server": st, "timeout": tmo} for s, ser in js]
+            got = run_scripts(js, st, tmo, ctx.seed)
+            traces += got
+            metas += [{"script": s, "ser": ser, "server": st, "timeout": tmo} for s, ser in js][:len(got)]
     # the thread server with an exhausted pool: the accept loop itself reads the first message of every refused connection
     def attacks(s):
         return any(st["a"] == "attack" for st in s)
     full_scripts = [s for s in s1 if attacks(s)] + [s for s in scripts[len(s1):] if attacks(s)][::ctx.pick(8, 2)]
     for tmo in (0.0, 3.0):
         js = [(s, sers[(i + (tmo > 0)) % 4]) for i, s in enumerate(full_scripts)]
-        traces += run_scripts(js, "thread", tmo, ctx.seed, full=True)
-        metas += [{"script": s, "ser": ser, "server": "thread", "timeout": tmo, "full": True} for s, ser in js]
+        got = run_scripts(js, "thread", tmo, ctx.seed, full=True)
+        traces += got
+        metas += [{"script": s, "ser": ser, "server": "thread", "timeout": tmo, "full": True} for s, ser in js][:len(got)]
     for m in metas:
         ctx.count(json.dumps(m, sort_keys=True))
     for i in (0, len(traces) // 2, len(traces) - 1):
